@@ -205,6 +205,104 @@ def buffer_protocol(ctx, rep, rule: str, cls_q: str) -> None:
     rep.ob(rule, f"protocol:{ci.name}:gather-arguments", ok, ag.loc(), "all_gather_into_tensor(global buffer, this rank's segment, group=<communication group>)", sample=True)
 
 
+COMM_DTYPES = {"BF16": "torch.bfloat16", "FP16": "torch.float16", "FP32": "torch.float32", "DEFAULT": "torch.float32"}
+
+
+def comm_dtype_table(ctx, rep, rule: str, cls_q: str) -> None:
+    """The constructor's selection of the communication dtype, walked once per CommunicationDType member: the member named
+    BF16 / FP16 / FP32 must select the torch dtype of that name, DEFAULT selects float32 (no rounding)."""
+    repo = ctx.repo
+    ci = repo.cls(cls_q)
+    init = repo.lookup_method(ci, "__init__")
+    m = init.module
+    enum_ci = repo.cls("distributed_shampoo.shampoo_types:CommunicationDType")
+    members = [t.id for st in enum_ci.node.body if isinstance(st, ast.Assign) for t in st.targets if isinstance(t, ast.Name)]
+    if sorted(members) != sorted(COMM_DTYPES):
+        rep.ob(rule, f"comm-dtype:{ci.name}:members", False, enum_ci.module.relpath, f"CommunicationDType members {members} differ from the documented set {sorted(COMM_DTYPES)}")
+        return
+    # the statement list that decides: the block of __init__ containing an `if` on the config's communication dtype
+    blocks = [b for b in _blocks_of(init.node) if any(isinstance(st, ast.If) and any("communication_dtype" in a and "CommunicationDType." in a for a in A.test_atoms(st.test)) for st in b)]
+    if not blocks:
+        raise AnalysisError(f"{ci.name}.__init__: no statement selecting the communication dtype found")
+    # outermost block (an elif arm is a nested block of the same chain); only the statements that test the dtype are walked
+    block = [st for st in blocks[0] if isinstance(st, ast.If) and any("communication_dtype" in a and "CommunicationDType." in a for a in A.test_atoms(st.test))]
+    atoms = set()
+    for st in ast.walk(ast.Module(body=block, type_ignores=[])):
+        if isinstance(st, ast.If):
+            atoms |= A.test_atoms(st.test)
+    n = 0
+    for member in members:
+        val = {}
+        for a in atoms:
+            if "CommunicationDType." in a and "communication_dtype" in a and " == " in a:
+                val[a] = f"CommunicationDType.{member}" in a.replace(" ", "").split("==")
+        stmts, end = A.walk_path(block, val)
+        chosen = [repo.dotted_of(m, st.value) or _norm(st.value) for st in stmts if isinstance(st, ast.Assign) and any("dtype" in _norm(t) for t in st.targets) and isinstance(st.value, ast.Attribute)]
+        ok = not end.startswith("unknown") and chosen[-1:] == [COMM_DTYPES[member]]
+        n += 1
+        rep.ob(rule, f"comm-dtype:{ci.name}:{member}", ok, init.loc(block[0]), f"CommunicationDType.{member} selects {chosen[-1] if chosen else end}; documented {COMM_DTYPES[member]}", sample=True)
+    rep.floor(rule, f"{ci.name} communication dtype cases", n, 4)
+
+
+def _blocks_of(fn: ast.AST):
+    for n in ast.walk(fn):
+        for fld in ("body", "orelse", "finalbody"):
+            v = getattr(n, fld, None)
+            if isinstance(v, list) and v and isinstance(v[0], ast.stmt):
+                yield v
+
+
+def allocation_forwards_request(ctx, rep, rule: str, cls_q: str) -> None:
+    """The distributor's state allocator hands the requested size and dtype to the zeros factory and uses every parameter it
+    is given (a dropped dtype gives float32 state where the caller asked for another precision)."""
+    repo = ctx.repo
+    ci = repo.cls(cls_q)
+    fi = repo.lookup_method(ci, "_allocate_zeros_distributed_tensor")
+    if fi is None:
+        raise AnalysisError(f"{ci.name} has no _allocate_zeros_distributed_tensor")
+    params = [p for p in fi.params if p != "self"]
+    used = {n.id for n in ast.walk(fi.node) if isinstance(n, ast.Name) and isinstance(n.ctx, ast.Load)}
+    unused = [p for p in params if p not in used]
+    rets = [n for n in A.walk_no_nested(fi.node) if isinstance(n, ast.Return) and n.value is not None]
+    factory = [c for r in rets for c in A.calls(r) if A.callee_name(repo, fi.module, c).split(".")[-1] in ("zeros", "dtensor_zeros", "empty", "full")]
+    if not factory:  # returned through a local
+        factory = [c for c in A.calls(fi.node) if A.callee_name(repo, fi.module, c).split(".")[-1] in ("zeros", "dtensor_zeros")]
+    ok = len(factory) == 1
+    detail = f"{len(factory)} zeros factory call(s)"
+    if ok:
+        c = factory[0]
+        size_ok = bool(c.args) and A.expanded(fi.node, c.args[0]) == "size" or (A.keyword(c, "size") is not None and A.expanded(fi.node, A.keyword(c, "size")) == "size")
+        dt = A.keyword(c, "dtype")
+        dtype_ok = dt is not None and A.expanded(fi.node, dt) == "dtype"
+        ok = size_ok and dtype_ok and not unused
+        detail = f"`{_norm(c)[:90]}`: size forwarded {size_ok}, dtype forwarded {dtype_ok}; unused parameters {unused}"
+    rep.ob(rule, f"allocation-forwards-request:{ci.name}", ok, fi.loc(factory[0]) if factory else fi.loc(), detail, sample=True)
+
+
+def mesh_dimension_roles(ctx, rep, rule: str, cls_q: str, mesh_attr: str) -> None:
+    """One mesh dimension is the replicate dimension: its size is the replicated group size, its group supplies the ranks the
+    state is distributed over; the other dimension is the shard dimension whose local rank keys the blocks."""
+    repo = ctx.repo
+    ci = repo.cls(cls_q)
+    uses: dict[str, set] = {}
+    n = 0
+    for fi in ci.methods.values():
+        if fi.cls is None or fi.cls.qual != ci.qual:
+            continue
+        for c in A.calls(fi.node, nested=True):
+            f = c.func
+            if isinstance(f, ast.Attribute) and f.attr in ("size", "get_group", "get_local_rank") and _norm(f.value) == f"self.{mesh_attr}":
+                arg = c.args[0] if c.args else (c.keywords[0].value if c.keywords else None)
+                key = arg.value if isinstance(arg, ast.Constant) else (_norm(arg) if arg is not None else None)
+                uses.setdefault(f.attr, set()).add(key)
+                n += 1
+    rep.floor(rule, f"{ci.name} mesh-dimension uses", n, 3)
+    repl = uses.get("size", set()) | uses.get("get_group", set())
+    shard = uses.get("get_local_rank", set())
+    ok = repl == {0} and shard == {1}
+    rep.ob(rule, f"mesh-dimension-roles:{ci.name}", ok, ci.module.relpath, f"`self.{mesh_attr}`: size()/get_group() on dimension(s) {sorted(map(str, repl))} (documented: replicate = 0), get_local_rank() on {sorted(map(str, shard))} (documented: shard = 1)", sample=True)
+
+
 def run(ctx, rep) -> None:
     rep.rule("C06.1", "collective uniformity: every collective / group-creating call is control- and data-independent of rank-variant values on every call path from __init__/step")
     rep.rule("C06.2", "update_params protocol: fill local send buffers -> all-gather -> apply all gathered masked blocks; parameters written after the gather only from the gather buffer")
@@ -212,6 +310,9 @@ def run(ctx, rep) -> None:
     rep.rule("C06.4", "the DDP / HSDP / HybridShard copies of the distribution code agree")
     rep.attempt("collective_uniformity", collective_uniformity, ctx, rep, "C06.1", {"DDPDistributor"})
     rep.attempt("buffer_protocol", buffer_protocol, ctx, rep, "C06.2", DDP)
+    rep.rule("C06.5", "communication dtype table: each CommunicationDType member selects the torch dtype of its name (DEFAULT: float32); the state allocator forwards the requested size and dtype")
+    rep.attempt("comm_dtype_table", comm_dtype_table, ctx, rep, "C06.5", DDP)
+    rep.attempt("allocation_forwards_request", allocation_forwards_request, ctx, rep, "C06.5", DDP)
     from .c14 import assignment_determinism, buffer_views, ownership
 
     rep.attempt("ownership", ownership, ctx, rep, "C06.3", [DDP])
